@@ -634,6 +634,18 @@ func ruleR016(c *Ctx) {
 				return true
 			}
 			g := c.CFG(lit)
+			// a call inside a nested literal (callback of an Iter call, immediately invoked function) is
+			// positioned at that literal in the control flow graph of the closure
+			anchor := func(n ast.Node) ast.Node {
+				cur := n
+				for {
+					fn := c.EnclosingFunc(cur)
+					if fn == nil || fn == ast.Node(lit) {
+						return cur
+					}
+					cur = fn
+				}
+			}
 			for i, x := range calls {
 				for j, y := range calls {
 					if i == j {
@@ -656,7 +668,7 @@ func ruleR016(c *Ctx) {
 						}
 						key := fmt.Sprintf("%s#order:%s.%s<%s[%d]", gname, kx, fx, fy, ordinalIn(gi.decl, y.call, func(z ast.Node) bool { _, ok := z.(*ast.CallExpr); return ok }))
 						// calls inside a callback literal are positioned at the callback in the literal's CFG
-						if g.Dominates(x.call, y.call) {
+						if ax, ay := anchor(x.call), anchor(y.call); ax != ay && g.Dominates(ax, ay) {
 							c.OK(key, y.call.Pos(), "%s.%s is evaluated before %s.%s on every path", kx, fx, ky, fy)
 						} else {
 							c.Violation(key, y.call.Pos(), "%s.%s can be evaluated without %s.%s having been evaluated before: the reference semantics evaluates %s first (left to right, call by value); errors and effects of the two sub expressions are observed in the wrong order", ky, fy, kx, fx, fx)
